@@ -52,6 +52,8 @@ SStoreOK     == More /\ E.a = "Store" /\ StoreOK /\ Adv([a |-> "StoreOK"])
 SStoreFail   == More /\ E.a = "Store" /\ StoreFail /\ Adv([a |-> "StoreFail"])
 SUStoreOK    == More /\ E.a = "Store" /\ UStoreOK /\ Adv([a |-> "UStoreOK"])
 SUStoreFail  == More /\ E.a = "Store" /\ UStoreFail /\ Adv([a |-> "UStoreFail"])
+SStoreFault  == More /\ E.a = "StoreFault" /\ StoreFault /\ Adv(E)
+SPackDuring  == More /\ E.a = "PackDuring" /\ PackDuring(KTid(E.T)) /\ Adv([E EXCEPT !.T = KTid(E.T)])
 SVote        == More /\ E.a = "Vote" /\ Vote /\ Adv(E)
 SFinish      == More /\ E.a = "Finish" /\ Finish /\ Adv(E)
 SConnAbort   == More /\ E.a = "ConnAbort" /\ ConnAbort /\ Adv(E)
@@ -65,13 +67,15 @@ SOtherFinish == More /\ E.a = "OtherFinish" /\ OtherFinish(E.b, E.x) /\ Adv(E)
 SLate        == More /\ E.a = "Late" /\ LateQ /\ Adv(E)
 SPack        == More /\ E.a = "Pack" /\ Pack(KTid(E.T)) /\ Adv([E EXCEPT !.T = KTid(E.T)])
 
-SStep == \/ SCreateBlob \/ SRewrite \/ SAppend \/ SConsumeFile \/ SConsumeFail \/ SModifyP \/ SSavepoint \/ SRollback \/ SAbortTxn
+SStep == \/ SPackDuring \/ SCreateBlob \/ SRewrite \/ SAppend \/ SConsumeFile \/ SConsumeFail \/ SModifyP \/ SSavepoint \/ SRollback \/ SAbortTxn
          \/ STpcBegin \/ SStoreOK \/ SStoreFail \/ SUStoreOK \/ SUStoreFail \/ SVote \/ SFinish \/ SConnAbort
-         \/ STpcAbort \/ SOtherCommit \/ SUBegin \/ SPack \/ SUCopyFail \/ SOpenWrite \/ SOpenRead \/ SCloseAll \/ SBoundary \/ SWrong \/ SOtherAbort \/ SOtherFinish \/ SLate
+         \/ STpcAbort \/ SOtherCommit \/ SUBegin \/ SPack \/ SUCopyFail \/ SStoreFault \/ SOpenWrite \/ SOpenRead \/ SCloseAll \/ SBoundary \/ SWrong \/ SOtherAbort \/ SOtherFinish \/ SLate
 \* (the enabling condition of Pack is written out: ENABLED would evaluate the packer a second time)
+PackDuringEnabled(T) == Flavour = "wrapmap" /\ txn.who # "none" /\ txn.phase \in {"stored", "voted"} /\ aux.late = "none" /\ T \in 1..clk
 PackEnabled(T) == HasPack /\ Idle /\ aux.late = "none" /\ IsClean(con) /\ T \in 1..clk
 SSkip == /\ More
-         /\ IF E.a = "Pack" THEN ~PackEnabled(KTid(E.T)) ELSE ~ENABLED SStep
+         /\ IF E.a = "Pack" THEN ~PackEnabled(KTid(E.T))
+            ELSE IF E.a = "PackDuring" THEN ~PackDuringEnabled(KTid(E.T)) ELSE ~ENABLED SStep
          /\ Adv([a |-> "Skip"]) /\ UNCHANGED vars
 SNext == SStep \/ SSkip
 =============================================================================
